@@ -285,6 +285,8 @@ impl TopKDynamicFilters {
     }
 
     fn mark_topk_emitted(&self) {
+        #[cfg(datafusion_verif)]
+        datafusion_common::verif::sync_point("topk:288");
         let previous = self
             .remaining_topk_emitters
             .fetch_update(
